@@ -357,6 +357,13 @@ class Classifier:
                 parts = _split_top(m.group(3))
                 if any(x in lens for x in parts):
                     auto = ("interval", "slice end is min(len of the same slice, ..)")
+            # buf[..x] behind x <= buf.len() (or x < buf.len())
+            m = re.match(r"^RangeTo::RangeTo\((.*)\)$", idx)
+            if auto is None and m:
+                x_ = m.group(1)
+                for (rop, x, y) in rels:
+                    if (x == x_ and y in lens and rop in ("Lt", "Le")) or (y == x_ and x in lens and rop in ("Gt", "Ge")):
+                        auto = ("guarded", "slice end compared with the length of the same slice")
             # buf[x..] behind x <= buf.len() (or x < buf.len())
             m = re.match(r"^RangeFrom::RangeFrom\((.*)\)$", idx)
             if auto is None and m:
